@@ -13,6 +13,9 @@ CHECKS = {
     'C10': dict(tech=SYMX, ref='3/C10',
                 text='Each shipped potential (HardSphere, Exponential, HardCoreLennardJones, LennardJones plain/cut/cut+shift, WCA) is executed on a 3-point arbitrary increasing grid with every parameter symbolic (epsilon of either sign, alpha, sigma, rcut, high_value); per path (core size / cut position) the solver proves u_i equals the documented formula, core = r_i<=sigma for all three hard-core potentials, exactly 0 beyond r_cut, continuity at r_cut when shifted, WCA >= -1e-12*eps and 0 beyond its cut, purity and repeatability; sigma defaulting proven through the real createPRISM. Bounded: 3 grid points, Real arithmetic.',
                 note='Trusted: numpy object-array semantics, z3/nlsat, exp Ackermann axioms. 2**(1/6) is read as the simplest rational within half an ulp of the double. The FP question (a grid point that coincides with sigma up to rounding) is a separate obligation family.'),
+    'C13': dict(tech=SYMX, ref='3/C13',
+                text='An interpreter applies operation sequences (depth 1-3 over + - * / with scalar / bare array / MatrixArray / length-1 MatrixArray operands, in and out of place, dot, @, @=, invert in/out of place, get_copy, keyed assignment, setMatrix) to the real MatrixArray / IdentityMatrixArray with symbolic data and to a plain-loop reference model; after every step the solver proves every entry equal to the model for all data, A.dot(A.invert())=I under det!=0, and identity/memory-sharing facts (operands untouched, results share no memory, in-place returns self) are checked; all 3x3 space-flag pairs x 12 binary operations enumerated; keyed access incl. unknown names. Bounded: rank 1-3 (4-5 without inverse in thorough), length 1-3.',
+                note='Trusted: numpy object-array semantics (einsum, broadcasting, in-place ops), z3. np.linalg.inv is an adjugate stub in symbolic mode (differential-tested); the inverse claim is decided independently as a product identity.'),
 }
 
 NOT_YET = {}
